@@ -100,15 +100,23 @@ pub open spec fn proof_values_bytes(v: RLNProofValues) -> Seq<u8> {
     fr_bytes(v.root) + fr_bytes(v.external_nullifier) + fr_bytes(v.x) + fr_bytes(v.y) + fr_bytes(v.nullifier)
 }
 
+// v is what the documented layout of s reads
+pub open spec fn proof_values_read_from(v: RLNProofValues, s: Seq<u8>) -> bool {
+    &&& v.root.view() == dec_fr(s, 0) &&& v.external_nullifier.view() == dec_fr(s, 32) &&& v.x.view() == dec_fr(s, 64)
+    &&& v.y.view() == dec_fr(s, 96) &&& v.nullifier.view() == dec_fr(s, 128)
+}
+// all five encodings are canonical (below the field order)
+pub open spec fn proof_values_canonical(s: Seq<u8>) -> bool {
+    canonical_at(s, 0) && canonical_at(s, 32) && canonical_at(s, 64) && canonical_at(s, 96) && canonical_at(s, 128)
+}
+
 //@fn rln/src/protocol.rs deserialize_proof_values
 //@tags C10 C13
 //@ret r
 //@contract
     requires serialized@.len() >= 160,   //# short-input-no-panic
     ensures r.1 == 160,   //# proof-values-decoder-reads-160-bytes
-            r.0.root.view() == dec_fr(serialized@, 0) && r.0.external_nullifier.view() == dec_fr(serialized@, 32)
-                && r.0.x.view() == dec_fr(serialized@, 64) && r.0.y.view() == dec_fr(serialized@, 96)
-                && r.0.nullifier.view() == dec_fr(serialized@, 128),   //# proof-values-decoder-layout
+            proof_values_read_from(r.0, serialized@),   //# proof-values-decoder-layout
 //@bodystart
     proof {
         let s = serialized@; let n = s.len() as int;
